@@ -25,6 +25,21 @@ class Rec(NodeBase):
     def _get_total(self):
         return sum(c.value for c in self.children)
 
+    # a cached property with two dependencies, read by a class-level handler: while
+    # an object is restored (unpickled, cloned) that handler runs between the
+    # assignment of the two dependencies
+    vtotal = Property(Int, observe="value, children.items.value")
+
+    @cached_property
+    def _get_vtotal(self):
+        return self.value + sum(c.value for c in self.children)
+
+    def _children_changed(self, new):
+        self.vtotal
+
+    def _value_changed(self, new):
+        self.vtotal
+
     @observe("tags.items, stags.items, grid.items.items, table.items.items, group.items, "
              "children.items.value, value")
     def _obs(self, event):
@@ -64,6 +79,31 @@ class Defs(HasTraits):
     DictStrInt = _t.Dict(_t.Str, _t.Int)
     CInt = _t.CInt()
     Bool = _t.Bool()
+    # one definition per kind of compiled validator / default kind / accessor pair
+    Complex = _t.Complex()
+    CFloat = _t.CFloat()
+    CComplex = _t.CComplex()
+    RangeF = _t.Range(0.0, 1.0)
+    RangeFE = _t.Range(0.0, 1.0, exclude_low=True)
+    RangeLow = _t.Range(low=0)
+    Callable = _t.Callable()
+    Any = _t.Any()
+    SetInt = _t.Set(_t.Int)
+    Union = _t.Union(_t.Int, None)
+    EitherNone = _t.Either(None, _t.Float)
+    PrefixList = _t.PrefixList(["alpha", "beta"])
+    PrefixMap = _t.PrefixMap({"yes": 1, "no": 0})
+    Constant = _t.Constant(4)
+    Event = _t.Event()
+    Bytes = _t.Bytes()
+    String = _t.String(maxlen=3)
+    Type = _t.Type(NodeBase)
+    TupleAny = _t.Tuple()
+    ValidatedTuple = _t.ValidatedTuple(_t.Int, _t.Int)
+    WeakRef = _t.WeakRef(NodeBase)
+    ListComplex = _t.List(_t.Complex)
+    TupleComplex = _t.Tuple(_t.Complex, _t.Int)
+    BaseInt = _t.BaseInt()
 
     def _get_PropInt(self):
         return self.__dict__.get("_p", 0)
